@@ -4,10 +4,11 @@
    sentence starting with the tokens before it (no late acceptance of a bad
    token is hidden: nothing after token k was looked at); the end-of-input
    case; sentences never error (C01); the expected list is non-empty.
-   Not proved here (stated below): that the k tokens before the error are a
-   viable prefix (no LATE detection); it is decided on the real code against an
-   Earley viable-prefix oracle in gen/c12.py. *)
-From RV Require Import Model.LR Spec.Validators Proofs.Sound Proofs.Complete Proofs.ErrorPos.
+   the k tokens before the error are a viable prefix (no LATE detection):
+   error_prefix_viable; both halves together: error_is_first_offender. The real
+   LR and GLR runtimes are additionally compared with an Earley viable-prefix
+   oracle in gen/c12.py. *)
+From RV Require Import Model.LR Spec.Validators Proofs.Sound Proofs.Complete Proofs.ErrorPos Proofs.Viable.
 From RV Require Properties.C01.
 
 Theorem error_no_continuation : forall g T fuel w k ex,
@@ -37,13 +38,36 @@ Theorem error_index_in_range : forall g T partial fuel w k ex,
 Proof. intros g T partial fuel w k ex Hs H. exact (error_index_in_range_main g T Hs partial w fuel k ex H). Qed.
 Print Assumptions error_index_in_range.
 
-(* the unproved half, kept visible *)
-Definition error_prefix_viable_statement : Prop :=
-  forall g T fuel w k ex,
-    wf_grammar_b g = true -> sound_b g T = true -> complete_b g T = true ->
-    parse g T false fuel w = Err k ex ->
-    exists v, sentence g (firstn k w ++ v).
+(* no LATE detection: the k tokens before the error are a viable prefix (they
+   begin some sentence), for every table passing sound_b and viable_b (all
+   symbols productive, every closure item justified by an earlier item of its
+   state, no empty state) *)
+Theorem error_prefix_viable : forall g T partial fuel w k ex,
+  wf_grammar_b g = true -> sound_b g T = true -> viable_b g T = true ->
+  parse g T partial fuel w = Err k ex ->
+  exists v, sentence g (firstn k w ++ v).
+Proof.
+  intros g T partial fuel w k ex Hwf Hs Hv H.
+  exact (error_prefix_viable_main g T Hwf Hs Hv partial fuel w k ex H).
+Qed.
+Print Assumptions error_prefix_viable.
+
+(* both halves: the error index is exactly the first token that cannot
+   continue any sentence beginning with the tokens before it *)
+Theorem error_is_first_offender : forall g T fuel w k ex,
+  wf_grammar_b g = true -> sound_b g T = true -> complete_b g T = true -> viable_b g T = true ->
+  parse g T false fuel w = Err k ex ->
+  (exists v, sentence g (firstn k w ++ v)) /\
+  (k < length w -> forall v, ~ sentence g (firstn (S k) w ++ v)) /\
+  (k = length w -> ~ sentence g w).
+Proof.
+  intros g T fuel w k ex Hwf Hs Hc Hv H. split.
+  - exact (error_prefix_viable_main g T Hwf Hs Hv false fuel w k ex H).
+  - exact (error_no_continuation_main g T Hwf Hc fuel w k ex H).
+Qed.
+Print Assumptions error_is_first_offender.
 
 Example c12_nonvacuous :
-  parse C02.ex_g C02.ex_T false 20 [1; 1] = Err 1 [2; 3] /\ has_actions_b C02.ex_T = true.
-Proof. vm_compute. split; reflexivity. Qed.
+  parse C02.ex_g C02.ex_T false 20 [1; 1] = Err 1 [2; 3] /\ has_actions_b C02.ex_T = true /\
+  viable_b C02.ex_g C02.ex_T = true /\ complete_b C02.ex_g C02.ex_T = true.
+Proof. vm_compute. repeat split; reflexivity. Qed.
